@@ -213,7 +213,14 @@ def run_impl(s: SScn):
                 if op[0] == "send":
                     sm.send(EVENTS[op[1]])
                 elif op[0] == "wv":
-                    sm.current_state_value = None if op[1] is None else VALS[op[1]]
+                    v = None if op[1] is None else VALS[op[1]]
+                    unmapped = v is not None and not any(type(x) is type(v) and x == v for x in type(sm).states_map)
+                    if unmapped and i % 2 == 0:
+                        # the same checked write through the other setter: a State object of *another* machine
+                        from statemachine import State
+                        sm.current_state = State(value=v)
+                    else:
+                        sm.current_state_value = v
                 elif op[0] == "ws":
                     sm.current_state = getattr(sm, f"s{op[1]}")
                 elif op[0] == "raw":
